@@ -320,7 +320,8 @@ class NUTS(Sampler):
 
     #=========================================================================
     def _nuts_target(self, x): # returns logposterior tuple evaluation-gradient
-        return self.target.logd(x), self.target.gradient(x)
+        # copy the gradient: a target may fill and return one persistent work array
+        return self.target.logd(x), np.copy(self.target.gradient(x))
 
     #=========================================================================
     # auxiliary standard Gaussian PDF: kinetic energy function
